@@ -336,6 +336,7 @@ def charkey(ctx, crate, E):
         raise EngineError("CHARKEY: anchor lost: %s" % p)
     todo = [p] + sorted(q for q in crate.fns if q.startswith(p + "::{closure") and crate.fns[q].body)
     n = 0
+    const_reads, fallible = [], []
     for q in todo:
         fa = E.fa(q)
         S = Sym(E, fa, depth=30)
@@ -351,6 +352,10 @@ def charkey(ctx, crate, E):
             n += 1
             why = None
             cur = e
+            if e[0] == "const":
+                const_reads.append(e[1])
+            elif any(x.endswith("::get") or x.endswith("slice::get") for x in ps):
+                fallible.append(fa.loc(b))
             for _ in range(12):
                 if cur[0] == "const":
                     break
@@ -376,6 +381,15 @@ def charkey(ctx, crate, E):
                    if why is None else
                    "char_info does not index the character table by the whole code point (%s): code "
                    "points beyond U+FFFF alias unrelated characters" % why)
+    # a code point beyond the table is a DEFAULT character: the fallback of a fallible lookup is the
+    # record in slot 0, not a made-up record (CharInfo::default() has no category and length 0)
+    if fallible:
+        ok = 0 in const_reads
+        ctx.ob("CHARKEY", "char_info|fallback-is-slot-0", ok, fallible[0],
+               "a code point beyond the table reads the DEFAULT record in slot 0" if ok else
+               "char_info looks the character up with a fallible get but never reads slot 0: a code "
+               "point beyond the table (every supplementary-plane character) gets a substitute record "
+               "instead of DEFAULT's categories, invoke, group and length")
     ctx.floor("CHARKEY", "table reads in char_info", n, 1)
 
 
